@@ -663,7 +663,11 @@ func stubTimeNow(ex *Exec, fn *ssa.Function, args []Value) []Value {
 }
 
 func stubTimeSleep(ex *Exec, fn *ssa.Function, args []Value) []Value {
+	ex.schedPoint("sleep")
 	g := ex.cur
+	if ex.schedOn && g.lastEv < len(ex.schedTrace) {
+		ex.schedTrace[g.lastEv].Blocks = true
+	}
 	g.sleeping = true
 	ex.reschedule()
 	return nil
